@@ -18,6 +18,7 @@ type VerifBlobDesc struct {
 	Target     blob.Ref
 	Transitive bool
 	Expires    time.Time
+	ClaimDate  time.Time
 	Signed     bool
 	Parts      []*BytesPart
 	Entries    blob.Ref
@@ -35,6 +36,9 @@ func VerifNewBlob(br blob.Ref, d VerifBlobDesc) *Blob {
 		ss.Signer = blob.VerifSmallRef(250)
 		ss.Sig = "sig"
 		ss.ClaimDate = types.Time3339(time.Unix(1000, 0))
+		if !d.ClaimDate.IsZero() {
+			ss.ClaimDate = types.Time3339(d.ClaimDate)
+		}
 	}
 	return &Blob{br: br, str: "{}", ss: ss}
 }
